@@ -1523,6 +1523,11 @@ EGLPNUM_TYPENAME_QSLIB_INTERFACE int EGLPNUM_TYPENAME_QSchange_senses (
 	CHECKRVALG (rval, CLEANUP);
 
 	p->factorok = 0;							/* logical coefficients and bounds changed */
+	if (p->basis)
+	{
+		EGLPNUM_TYPENAME_EGlpNumFreeArray (p->basis->rownorms);
+		EGLPNUM_TYPENAME_EGlpNumFreeArray (p->basis->colnorms);
+	}
 	free_cache (p);
 
 CLEANUP:
@@ -1605,6 +1610,12 @@ EGLPNUM_TYPENAME_QSLIB_INTERFACE int EGLPNUM_TYPENAME_QSchange_coef (
 	CHECKRVALG (rval, CLEANUP);
 
 	p->factorok = 0;							/* the basis matrix may have changed */
+	if (p->basis)
+	{
+		/* and with it the steepest-edge norms stored with the basis */
+		EGLPNUM_TYPENAME_EGlpNumFreeArray (p->basis->rownorms);
+		EGLPNUM_TYPENAME_EGlpNumFreeArray (p->basis->colnorms);
+	}
 	free_cache (p);
 
 CLEANUP:
